@@ -101,6 +101,10 @@ func PlmnIdToCdr(modelsPlmnid models.PlmnId) cdrType.PLMNId {
 	var hexString string
 	mcc := strings.Split(modelsPlmnid.Mcc, "")
 	mnc := strings.Split(modelsPlmnid.Mnc, "")
+	if len(mcc) != 3 || (len(mnc) != 2 && len(mnc) != 3) {
+		// not a PLMN identity: leave the value empty rather than index out of range
+		return cdrType.PLMNId{}
+	}
 	if len(modelsPlmnid.Mnc) == 2 {
 		hexString = mcc[1] + mcc[0] + "f" + mcc[2] + mnc[1] + mnc[0]
 	} else {
